@@ -242,7 +242,13 @@ pub fn dispatch(name: &str, args: &[&str]) -> Option<String> {
             if let Some(p) = ob(args[5]) {
                 c = c.with_path(p);
             }
-            c = c.with_secure(args[6] == "1").with_http_only(args[7] == "1");
+            // flags are only touched when set, so that the builder's defaults (both off) are observed
+            if args[6] == "1" {
+                c = c.with_secure(true);
+            }
+            if args[7] == "1" {
+                c = c.with_http_only(true);
+            }
             if args[8] != "none" {
                 c = c.with_same_site(match args[8] {
                     "0" => SameSite::Strict,
